@@ -894,6 +894,13 @@ func Feasible(atoms []Atom) bool {
 			}
 			continue
 		}
+		// equality of two constants folds
+		if n.Cond.Op == "binop" && n.Cond.Name == "==" && n.Cond.Args[0].Op == "const" && n.Cond.Args[1].Op == "const" {
+			if (n.Cond.Args[0].Name == n.Cond.Args[1].Name) != n.Sign {
+				return false
+			}
+			continue
+		}
 		k := n.Cond.Key()
 		if s, ok := seen[k]; ok && s != n.Sign {
 			return false
@@ -1030,6 +1037,8 @@ func (p *Prog) Def(v ssa.Value) ssa.Value {
 		case *ssa.MakeInterface:
 			v = x.X
 		case *ssa.ChangeInterface:
+			v = x.X
+		case *ssa.ChangeType:
 			v = x.X
 		default:
 			return v
